@@ -50,6 +50,8 @@ type KSN struct {
 
 type SN struct {
 	Name string
+	DM   SMap            // declared map type aliasing the pooled plain maps (M, MM, Ms)
+	DMs  map[string]SMap // ... also as map values
 	Rs   []SRef          // declared pointer type in slice elements (mixed with the plain *SN references to the same nodes)
 	MS   map[KSN]int     // struct keys containing node pointers
 	MP   map[[1]*SN]bool // array keys of node pointers
@@ -82,6 +84,9 @@ type IN struct {
 // DRef / SRef: DECLARED pointer types (type Ref *Node): same pointers, another static type.
 type DRef *DN
 type SRef *SN
+
+// SMap: a DECLARED map type; the same map objects are also referenced as plain map[string]*SN
+type SMap map[string]*SN
 
 // DN: references of a declared pointer type next to plain ones (copier only, like PN).
 type DN struct {
@@ -490,6 +495,12 @@ func buildSN(g *gen, n int) []*SN {
 		}
 		if r.Chance(1, 3) {
 			nd.Rs = []SRef{SRef(pick(i)), SRef(pick(i))}
+		}
+		if r.Chance(1, 3) {
+			nd.DM = SMap(poolMap())
+		}
+		if r.Chance(1, 5) {
+			nd.DMs = map[string]SMap{"u": SMap(poolMap()), "v": SMap(poolMap())}
 		}
 		if r.Chance(1, 4) {
 			nd.MS = map[KSN]int{{K: "a", P: pick(i)}: 1, {K: "b", P: pick(i)}: 2}
